@@ -4,9 +4,21 @@ theories/Spec/BV.vos theories/Spec/BV.vok theories/Spec/BV.required_vos: theorie
 theories/Spec/Eval.vo theories/Spec/Eval.glob theories/Spec/Eval.v.beautified theories/Spec/Eval.required_vo: theories/Spec/Eval.v theories/Model/Expr.vo
 theories/Spec/Eval.vio: theories/Spec/Eval.v theories/Model/Expr.vio
 theories/Spec/Eval.vos theories/Spec/Eval.vok theories/Spec/Eval.required_vos: theories/Spec/Eval.v theories/Model/Expr.vos
+theories/Spec/Script.vo theories/Spec/Script.glob theories/Spec/Script.v.beautified theories/Spec/Script.required_vo: theories/Spec/Script.v theories/Spec/System.vo
+theories/Spec/Script.vio: theories/Spec/Script.v theories/Spec/System.vio
+theories/Spec/Script.vos theories/Spec/Script.vok theories/Spec/Script.required_vos: theories/Spec/Script.v theories/Spec/System.vos
+theories/Spec/SysExec.vo theories/Spec/SysExec.glob theories/Spec/SysExec.v.beautified theories/Spec/SysExec.required_vo: theories/Spec/SysExec.v theories/Spec/System.vo
+theories/Spec/SysExec.vio: theories/Spec/SysExec.v theories/Spec/System.vio
+theories/Spec/SysExec.vos theories/Spec/SysExec.vok theories/Spec/SysExec.required_vos: theories/Spec/SysExec.v theories/Spec/System.vos
 theories/Spec/System.vo theories/Spec/System.glob theories/Spec/System.v.beautified theories/Spec/System.required_vo: theories/Spec/System.v theories/Spec/Eval.vo
 theories/Spec/System.vio: theories/Spec/System.v theories/Spec/Eval.vio
 theories/Spec/System.vos theories/Spec/System.vok theories/Spec/System.required_vos: theories/Spec/System.v theories/Spec/Eval.vos
+theories/Model/Analysis.vo theories/Model/Analysis.glob theories/Model/Analysis.v.beautified theories/Model/Analysis.required_vo: theories/Model/Analysis.v theories/Spec/System.vo
+theories/Model/Analysis.vio: theories/Model/Analysis.v theories/Spec/System.vio
+theories/Model/Analysis.vos theories/Model/Analysis.vok theories/Model/Analysis.required_vos: theories/Model/Analysis.v theories/Spec/System.vos
+theories/Model/Encoding.vo theories/Model/Encoding.glob theories/Model/Encoding.v.beautified theories/Model/Encoding.required_vo: theories/Model/Encoding.v theories/Model/Analysis.vo theories/Spec/Script.vo
+theories/Model/Encoding.vio: theories/Model/Encoding.v theories/Model/Analysis.vio theories/Spec/Script.vio
+theories/Model/Encoding.vos theories/Model/Encoding.vok theories/Model/Encoding.required_vos: theories/Model/Encoding.v theories/Model/Analysis.vos theories/Spec/Script.vos
 theories/Model/EvalImpl.vo theories/Model/EvalImpl.glob theories/Model/EvalImpl.v.beautified theories/Model/EvalImpl.required_vo: theories/Model/EvalImpl.v theories/Spec/Eval.vo
 theories/Model/EvalImpl.vio: theories/Model/EvalImpl.v theories/Spec/Eval.vio
 theories/Model/EvalImpl.vos theories/Model/EvalImpl.vok theories/Model/EvalImpl.required_vos: theories/Model/EvalImpl.v theories/Spec/Eval.vos
@@ -19,6 +31,9 @@ theories/Model/Simplify.vos theories/Model/Simplify.vok theories/Model/Simplify.
 theories/Proofs/BVLemmas.vo theories/Proofs/BVLemmas.glob theories/Proofs/BVLemmas.v.beautified theories/Proofs/BVLemmas.required_vo: theories/Proofs/BVLemmas.v theories/Spec/BV.vo
 theories/Proofs/BVLemmas.vio: theories/Proofs/BVLemmas.v theories/Spec/BV.vio
 theories/Proofs/BVLemmas.vos theories/Proofs/BVLemmas.vok theories/Proofs/BVLemmas.required_vos: theories/Proofs/BVLemmas.v theories/Spec/BV.vos
+theories/Proofs/EncodingExamples.vo theories/Proofs/EncodingExamples.glob theories/Proofs/EncodingExamples.v.beautified theories/Proofs/EncodingExamples.required_vo: theories/Proofs/EncodingExamples.v theories/Model/Encoding.vo
+theories/Proofs/EncodingExamples.vio: theories/Proofs/EncodingExamples.v theories/Model/Encoding.vio
+theories/Proofs/EncodingExamples.vos theories/Proofs/EncodingExamples.vok theories/Proofs/EncodingExamples.required_vos: theories/Proofs/EncodingExamples.v theories/Model/Encoding.vos
 theories/Proofs/EvalImplProofs.vo theories/Proofs/EvalImplProofs.glob theories/Proofs/EvalImplProofs.v.beautified theories/Proofs/EvalImplProofs.required_vo: theories/Proofs/EvalImplProofs.v theories/Model/EvalImpl.vo theories/Proofs/ExprLemmas.vo
 theories/Proofs/EvalImplProofs.vio: theories/Proofs/EvalImplProofs.v theories/Model/EvalImpl.vio theories/Proofs/ExprLemmas.vio
 theories/Proofs/EvalImplProofs.vos theories/Proofs/EvalImplProofs.vok theories/Proofs/EvalImplProofs.required_vos: theories/Proofs/EvalImplProofs.v theories/Model/EvalImpl.vos theories/Proofs/ExprLemmas.vos
@@ -28,6 +43,9 @@ theories/Proofs/EvalProofs.vos theories/Proofs/EvalProofs.vok theories/Proofs/Ev
 theories/Proofs/ExprLemmas.vo theories/Proofs/ExprLemmas.glob theories/Proofs/ExprLemmas.v.beautified theories/Proofs/ExprLemmas.required_vo: theories/Proofs/ExprLemmas.v theories/Model/Expr.vo
 theories/Proofs/ExprLemmas.vio: theories/Proofs/ExprLemmas.v theories/Model/Expr.vio
 theories/Proofs/ExprLemmas.vos theories/Proofs/ExprLemmas.vok theories/Proofs/ExprLemmas.required_vos: theories/Proofs/ExprLemmas.v theories/Model/Expr.vos
+theories/Props/C04.vo theories/Props/C04.glob theories/Props/C04.v.beautified theories/Props/C04.required_vo: theories/Props/C04.v theories/Model/Encoding.vo theories/Proofs/EncodingExamples.vo
+theories/Props/C04.vio: theories/Props/C04.v theories/Model/Encoding.vio theories/Proofs/EncodingExamples.vio
+theories/Props/C04.vos theories/Props/C04.vok theories/Props/C04.required_vos: theories/Props/C04.v theories/Model/Encoding.vos theories/Proofs/EncodingExamples.vos
 theories/Props/C06.vo theories/Props/C06.glob theories/Props/C06.v.beautified theories/Props/C06.required_vo: theories/Props/C06.v theories/Model/EvalImpl.vo theories/Proofs/EvalProofs.vo theories/Proofs/EvalImplProofs.vo
 theories/Props/C06.vio: theories/Props/C06.v theories/Model/EvalImpl.vio theories/Proofs/EvalProofs.vio theories/Proofs/EvalImplProofs.vio
 theories/Props/C06.vos theories/Props/C06.vok theories/Props/C06.required_vos: theories/Props/C06.v theories/Model/EvalImpl.vos theories/Proofs/EvalProofs.vos theories/Proofs/EvalImplProofs.vos
